@@ -297,8 +297,13 @@ class Ref:
         frame = scope.push()
         try:
             # 1. definitions first
-            for sc, name, e in node.get('define', []):
-                v = self.ev(e, scope)
+            for sc, names, e in node.get('define', []):
+              vs = self.ev(e, scope)
+              if not isinstance(names, str):
+                  vs = tuple(vs)
+                  if len(vs) != len(names):
+                      raise ValueError('unpack')
+              for name, v in ([(names, vs)] if isinstance(names, str) else zip(names, vs)):
                 if sc == 'global':
                     scope.globals[name] = v
                     # a global definition is also the visible value from now on
